@@ -162,9 +162,9 @@ class Agg:
             mine.sort(key=lambda x: (x[0], json.dumps(x[1]["case"], sort_keys=True, default=str)))
             del mine[self.MAX_PER_CLASS:]
         self.vcount.update(other.vcount)
-        for s in other.samples:
-            if len(self.samples) < self.MAX_SAMPLES:
-                self.samples.append(s)
+        # deterministic regardless of the order in which shards finish
+        merged = {json.dumps(x, sort_keys=True, ensure_ascii=False, default=str): x for x in self.samples + other.samples}
+        self.samples = [merged[k] for k in sorted(merged)[: self.MAX_SAMPLES]]
 
 
 def _worker(args):
@@ -286,9 +286,13 @@ def finish(ctx: Ctx, mod, replay_fn=None) -> int:
                 again = replay_fn(rec["case"])
             except Exception:
                 again = [{"kind": "replay-crash", "sig": {}, "detail": traceback.format_exc()[-800:]}]
-            if not any(sig_key(v["kind"], v["sig"]) == k for v in again):
+            if not again:
                 flaky.append((k, rec, again))
                 continue
+            if not any(sig_key(v["kind"], v["sig"]) == k for v in again):
+                # the case violates the property on replay too, but is classified differently (history-dependent
+                # failures do that): still a violation, reported under the class seen during exploration
+                rec = dict(rec, detail=rec.get("detail", "") + f"\n[on replay classified as {[v['kind'] for v in again][:3]}]")
         hit = None
         for f in known:
             if f.get("status") == "known" and finding_matches(f, rec["kind"], rec["sig"]):
